@@ -30,7 +30,7 @@ ASSUMPTIONS = [
 ]
 
 FORMULA_SRC = {"F1": "center(a) + A", "F2": "a:A + scale(b)", "F3": "y ~ a | A", "F4": "bs(a, df=3) + C(A, contr.sum)",
-               "F5": "0 + A:B + center(b)"}
+               "F5": "0 + A:B + center(b)", "F6": "bs(a, knots=kn, degree=2) + center(b)"}
 
 
 def _plain_center(x):
@@ -42,7 +42,12 @@ def _plain_scale(x):
 
 
 # evaluation contexts: the default one, and one in which the names of two built-in *stateful* transforms are bound to plain functions
-CONTEXTS = {"ctx-default": {}, "ctx-shadow": {"center": _plain_center, "scale": _plain_scale}}
+def make_contexts():
+    """fresh caller-owned context objects for every world (they are inputs: a build must not change them)"""
+    return {"ctx-default": {"kn": [2.0, 4.0]}, "ctx-shadow": {"center": _plain_center, "scale": _plain_scale, "kn": [2.0, 4.0]}}
+
+
+CONTEXTS = make_contexts()
 
 
 def make_world():
@@ -54,17 +59,21 @@ def make_world():
                       index=[3, 1, 4, 1, 5])
     w = {"D1": d1, "D2": d2}
     for k, src in FORMULA_SRC.items():
+        if k == "F6":
+            continue  # needs a context (knots list): only built through ("mmctx", ...)
         w[k] = Formula(src)
         w["U" + k[1:]] = ModelSpec.from_spec(w[k])
     w["specs"] = {}
+    w["contexts"] = make_contexts()
     return w
 
 
 def world_digests(w):
-    out = {"D1": digest(w["D1"]), "D2": digest(w["D2"])}
+    out = {"D1": digest(w["D1"]), "D2": digest(w["D2"]),
+           "contexts": digest({k: {n: (v if not callable(v) else v.__name__) for n, v in c_.items()} for k, c_ in w["contexts"].items()})}
     for k in FORMULA_SRC:
-        f = w[k]
-        out[k] = digest(_formula_terms(f))
+        if k in w:
+            out[k] = digest(_formula_terms(w[k]))
     return out
 
 
@@ -124,7 +133,7 @@ def do_event(w, ev, fresh=False):
             if kind == "mm":
                 return model_matrix(w[ev[1]], w[ev[2]], context={})
             if kind == "mmctx":
-                return model_matrix(FORMULA_SRC[ev[1]], w[ev[2]], context=CONTEXTS[ev[3]])
+                return model_matrix(FORMULA_SRC[ev[1]], w[ev[2]], context=w["contexts"][ev[3]])
             if kind == "fmm":
                 return w[ev[1]].get_model_matrix(w[ev[2]])
             if kind == "umm":
@@ -462,7 +471,7 @@ def drv_seeds(c, ctx, col):
 # between calls cannot be seen against an in-process "fresh world", so every history is also run in its own interpreter and
 # each event's result is compared with the same event run alone in its own interpreter.
 
-PROC_EVENTS = [("F1", "D1", "ctx-default"), ("F1", "D1", "ctx-shadow"), ("F1", "D2", "ctx-default"), ("F2", "D1", "ctx-default"),
+PROC_EVENTS = [("F6", "D1", "ctx-default"), ("F1", "D1", "ctx-default"), ("F1", "D1", "ctx-shadow"), ("F1", "D2", "ctx-default"), ("F2", "D1", "ctx-default"),
                ("F2", "D2", "ctx-shadow"), ("F5", "D2", "ctx-default"), ("F4", "D1", "ctx-default"), ("F3", "D1", "ctx-default")]
 
 PROBE_HIST = r"""
@@ -523,7 +532,7 @@ def subchecks(tier, seed):
             shard_depth=2, bounds={"max_events": 2 if quick else 3, "formulas": FORMULA_SRC, "frames": 2}),
         Sub("histories-depth3-slice", drv_hist, {"D": 3, "formulas": ["F1", "F3"] if quick else ["F1", "F2", "F3", "F4"], "entries": ["umm"] if quick else ["mm", "umm"]},
             shard_depth=2, bounds={"max_events": 3, "formulas": ["F1", "F3"] if quick else list(FORMULA_SRC), "entries": "shared unfitted specs (+model_matrix in thorough)"}),
-        Sub("histories-contexts", drv_hist, {"D": 2 if quick else 3, "formulas": [], "ctx_formulas": ["F1", "F2"], "entries": []},
+        Sub("histories-contexts", drv_hist, {"D": 2 if quick else 3, "formulas": [], "ctx_formulas": ["F1", "F2", "F6"], "entries": []},
             shard_depth=2, bounds={"max_events": 2 if quick else 3, "events": "builds of F1/F2 under the default context and under a context binding "
                                    "'center'/'scale' to plain functions, reuse of every produced spec, update, pickle, subset"}),
         Sub("hash-orders", drv_hashorder, {"formulas": HASH_FORMULAS[:5] if quick else HASH_FORMULAS}, shard_depth=3,
